@@ -150,7 +150,7 @@ func (h *SparseFileHandle) Close() error {
 
 type sparseIndexChunk struct {
 	IndexChunk
-	once sync.Once
+	mu sync.Mutex // held while the chunk is being loaded
 }
 
 // Loader for sparse files
@@ -204,6 +204,9 @@ func (l *sparseFileLoader) indexRange(start, length int64) (int, int) {
 
 // Loads all the chunks needed to populate the given byte range (if not already loaded)
 func (l *sparseFileLoader) loadRange(start, length int64) error {
+	if length < 1 || len(l.chunks) == 0 { // nothing will be read, nothing to load
+		return nil
+	}
 	first, last := l.indexRange(start, length)
 	var chunksNeeded []int
 	l.mu.RLock()
@@ -230,36 +233,42 @@ func (l *sparseFileLoader) loadRange(start, length int64) error {
 }
 
 func (l *sparseFileLoader) loadChunk(i int) error {
-	var loadErr error
-	l.chunks[i].once.Do(func() {
-		c, err := l.s.GetChunk(l.chunks[i].ID)
-		if err != nil {
-			loadErr = err
-			return
-		}
-		b, err := c.Data()
-		if err != nil {
-			loadErr = err
-			return
-		}
+	// Only one goroutine loads a chunk at a time. If loading fails the chunk is
+	// not marked done and the next reader tries again, rather than being served
+	// the unpopulated range of the file.
+	l.chunks[i].mu.Lock()
+	defer l.chunks[i].mu.Unlock()
 
-		f, err := os.OpenFile(l.name, os.O_RDWR, 0666)
-		if err != nil {
-			loadErr = err
-			return
-		}
-		defer f.Close()
+	l.mu.RLock()
+	done := l.done.Get(i)
+	l.mu.RUnlock()
+	if done { // someone else loaded it while we were waiting
+		return nil
+	}
 
-		if _, err := f.WriteAt(b, int64(l.chunks[i].Start)); err != nil {
-			loadErr = err
-			return
-		}
+	c, err := l.s.GetChunk(l.chunks[i].ID)
+	if err != nil {
+		return err
+	}
+	b, err := c.Data()
+	if err != nil {
+		return err
+	}
 
-		l.mu.Lock()
-		l.done.Set(i, true)
-		l.mu.Unlock()
-	})
-	return loadErr
+	f, err := os.OpenFile(l.name, os.O_RDWR, 0666)
+	if err != nil {
+		return err
+	}
+	defer f.Close()
+
+	if _, err := f.WriteAt(b, int64(l.chunks[i].Start)); err != nil {
+		return err
+	}
+
+	l.mu.Lock()
+	l.done.Set(i, true)
+	l.mu.Unlock()
+	return nil
 }
 
 // writeState saves the current internal state about which chunks have
